@@ -239,9 +239,13 @@ func TestC05Progress(t *testing.T) {
 
 // ---- fault-free synchronous run: every view extends the chain by a certified block; commits trail by the chain length ----
 
+// knownSlowCollector is the fingerprint of open finding 54.
+const knownSlowCollector = "fast-hotstuff-collector-with-slower-timer-loses-its-view"
+
 type syncCase struct {
 	Cfg    Config
 	Rounds int
+	Slow   int `json:",omitempty"` // > 0: the view timer of this replica is slower than the others': it fires after the others' timeout messages have been delivered (all messages still arrive long before any timer)
 }
 
 func syncProp(c syncCase) common.Result {
@@ -301,13 +305,28 @@ func syncProp(c syncCase) common.Result {
 		if len(cl.deliverable()) > 0 {
 			cl.Burst(1)
 			if fp, msg := check(); fp != "" {
+				if c.Slow > 0 && c.Cfg.Rules == "fasthotstuff" && (fp == "sync:chain-shape" || fp == "sync:commit-lag") {
+					return common.Fail(knownSlowCollector, "%s\n(the view timer of replica %d fires after the others' timeout messages were delivered)\nconfig: %s", msg, c.Slow, c.Cfg.Describe())
+				}
 				return common.Fail(fp+":"+c.Cfg.Rules, "%s\nconfig: %s", msg, c.Cfg.Describe())
 			}
 			continue
 		}
 		// nothing is in flight: the current view can only end by its timers
+		var slow *Stack
 		for _, st := range cl.liveStacks() {
+			if c.Slow > 0 && int(st.ID) == c.Slow {
+				slow = st
+				continue
+			}
 			cl.FireTimeout(st)
+		}
+		if slow != nil {
+			// the others' timeout messages travel first; then the slow timer fires (for the view the replica is in by then)
+			for k := 0; k < 4 && len(cl.deliverable()) > 0; k++ {
+				cl.Burst(1)
+			}
+			cl.FireTimeout(slow)
 		}
 	}
 	for _, st := range cl.Stacks {
@@ -316,10 +335,17 @@ func syncProp(c syncCase) common.Result {
 		}
 	}
 	newest := len(cl.AllBlk) - 1
+	if newest < c.Rounds && c.Slow > 0 && c.Cfg.Rules == "fasthotstuff" {
+		return common.Fail(knownSlowCollector, "after %d iterations only %d blocks were proposed and replicas are in view %d (the view timer of replica %d fires after the others' timeout messages were delivered)\nconfig: %s", iterations, newest, views, c.Slow, c.Cfg.Describe())
+	}
 	if newest < c.Rounds {
 		return common.Fail("sync:no-progress:"+c.Cfg.Rules, "after %d iterations (deliver everything in flight; when nothing is in flight all timers fire) only %d blocks were proposed and replicas are in view %d: not every view extends the chain\nconfig: %s", iterations, newest, views, c.Cfg.Describe())
 	}
-	return common.OK(true, c.Cfg.Describe()+fmt.Sprint(c.Rounds), c.Cfg.Rules, fmt.Sprintf("n=%d", c.Cfg.N))
+	cls := []string{c.Cfg.Rules, fmt.Sprintf("n=%d", c.Cfg.N)}
+	if c.Slow > 0 {
+		cls = append(cls, "sync one-slow-timer")
+	}
+	return common.OK(true, c.Cfg.Describe()+fmt.Sprint(c.Rounds, c.Slow), cls...)
 }
 
 func TestC05FaultFree(t *testing.T) {
@@ -335,6 +361,10 @@ func TestC05FaultFree(t *testing.T) {
 				cfg.Leaders = append(cfg.Leaders, rapid.IntRange(1, cfg.N).Draw(rt, "l"))
 			}
 		}
-		return syncCase{cfg, rapid.IntRange(4, 14).Draw(rt, "rounds")}
+		sc := syncCase{Cfg: cfg, Rounds: rapid.IntRange(4, 14).Draw(rt, "rounds")}
+		if rapid.IntRange(0, 2).Draw(rt, "slow-timer") == 0 {
+			sc.Slow = rapid.IntRange(1, cfg.N).Draw(rt, "slow")
+		}
+		return sc
 	}, syncProp)
 }
